@@ -200,6 +200,23 @@ func validPoints(a *api, seed int64, n int) []any {
 			}
 		}
 	}
+	if searchMode {
+		// coordinates near the modulus and near powers of two (top-bit masking mistakes show only there)
+		for _, b := range edgeStrings(a) {
+			if p, err := a.dec("c", b); err == nil {
+				ps = append(ps, p)
+			}
+		}
+		if a.fromAffineX != nil {
+			for _, c := range edgeCoords(a) {
+				if c.Cmp(a.cv.p) < 0 {
+					if p, err := a.fromAffineX(c, c.Bit(0) == 1); err == nil {
+						ps = append(ps, p)
+					}
+				}
+			}
+		}
+	}
 	if a.name == "p256" {
 		// the two points with x = 0 (F2): via FromAffineX
 		for _, odd := range []bool{false, true} {
@@ -358,6 +375,9 @@ func decodeStrings(a *api, f string, pts []any, seed int64, nRandom, nFlip int) 
 		if h.f == f {
 			out = append(out, vh.UnHex(h.hex))
 		}
+	}
+	if searchMode && f == "c" {
+		out = append(out, edgeStrings(a)...)
 	}
 	// random strings of the right length, with a plausible flag byte most of the time
 	for i := 0; i < nRandom; i++ {
@@ -602,7 +622,7 @@ func propAccepted(a *api, f string, b []byte, p any) *propFail {
 	if a.subgroup && !a.torsionFree(p) {
 		return &propFail{a.name + "-" + fmtName(f) + "-accept-nonsubgroup", "accepted value is not torsion free (library's own test)", pcase}
 	}
-	return nil
+	return propDenotes(a, f, b, p)
 }
 
 // g2OnCurve: y^2 = x^3 + 4(1+u) over F_p[u]/(u^2+1); coordinates arrive as c0 || c1 (96 bytes).
@@ -738,6 +758,7 @@ func fieldStrings(fl *fieldAPI, seed int64, n int) (narrow, wide [][]byte) {
 }
 
 var (
+	searchMode bool
 	res0     *vh.Result
 	perKey   = map[string]int{}
 	phaseT   = map[string]float64{}
@@ -764,6 +785,7 @@ func main() {
 	res := vh.NewResult("C13", a.Seed, a.Tier)
 	res0 = res
 	res.Rule = "per curve type and format (compressed/uncompressed/FromAffine/FromAffineX/FromBytes of scalars and base-field elements): encodings of identity, generator multiples, a pseudo-random walk, off-subgroup, small-order and zero-coordinate points; strings of every length 0..2*size+1, every value of the flag-carrying bytes, single-bit flips of valid encodings, coordinates increased by p, random strings with plausible flags. Non-trivial = the string has the right length (gets past the length guard); distinct by case text. Model and implementation must agree on accept/reject, decoded affine value and produced bytes; the property predicate (round trip, injectivity, accepted => on curve / in subgroup by big.Int arithmetic, reserved flags rejected, no panic) is evaluated on the implementation alone."
+	searchMode = a.Search
 	allAPIs = apis()
 	allFields = fields()
 
@@ -969,9 +991,13 @@ func main() {
 		if impl != out[i] {
 			m := vh.Mismatch{ID: fmt.Sprintf("L%d", i), Kind: "corr", Key: corrKey(line), Detail: fmt.Sprintf("implementation: %s ; model: %s", impl, out[i]), Case: line,
 				What: "correspondence model/PointCodec.v = implementation on " + strings.Join(strings.Split(line, " ")[:2], " ")}
-			if pf := propOfLine(line, impl); pf != nil {
+			if pf := propOfLine(line, impl, out[i]); pf != nil {
 				m.PropFail = true
 				m.Detail += " ; property: " + pf.detail
+				if strings.HasPrefix(pf.pcase, "P ") {
+					m.Case = pf.pcase // the failing point itself, replayable
+					m.Detail += " ; found on " + line
+				}
 			}
 			report(m)
 		}
@@ -1026,7 +1052,7 @@ func corrKey(line string) string {
 
 // propOfLine evaluates the property's predicate on the implementation for a case on which
 // model and implementation disagree.
-func propOfLine(line, impl string) *propFail {
+func propOfLine(line, impl, model string) *propFail {
 	f := strings.Split(line, " ")
 	switch f[0] {
 	case "D":
@@ -1038,6 +1064,11 @@ func propOfLine(line, impl string) *propFail {
 		}
 		if strings.HasPrefix(impl, "PANIC") {
 			return &propFail{"", "decoder panics", line}
+		}
+		// the points the two sides read out of the string, rebuilt through the affine constructor:
+		// round trip of each, and injectivity between them
+		if pf := propDecodedPoints(a, f[2], b, impl, model); pf != nil {
+			return pf
 		}
 		if !strings.HasPrefix(impl, "OK") {
 			// rejecting the encoding of a valid element breaks the round trip
@@ -1116,6 +1147,60 @@ func propOfLine(line, impl string) *propFail {
 			if w, err := fl.fromBytes(e); err != nil || w.Cmp(v) != 0 {
 				return &propFail{"", "Bytes/FromBytes round trip fails", line}
 			}
+		}
+	}
+	return nil
+}
+
+// propDecodedPoints: Q = the point the model decodes from b, Q' = the point the implementation
+// decodes; both are constructed in the implementation through FromAffine and the property is
+// evaluated on them: decode(encode Q) = Q, encode Q != encode Q' for Q != Q', and an accepted b
+// decodes to the point its bytes denote.
+func propDecodedPoints(a *api, f string, b []byte, impl, model string) *propFail {
+	if a.fromAffine == nil {
+		return nil
+	}
+	mk := func(s string) (any, string) {
+		if !strings.HasPrefix(s, "OK ") {
+			return nil, ""
+		}
+		c := strings.TrimPrefix(s, "OK ")
+		var p any
+		var err error
+		if vh.Safely(func() { p, err = a.build(c) }) != "" || err != nil {
+			return nil, c
+		}
+		return p, c
+	}
+	q, qc := mk(model)
+	q2, q2c := mk(impl)
+	for _, pt := range []any{q, q2} {
+		if pt == nil {
+			continue
+		}
+		if pf := propRoundTrip(a, f, pt); pf != nil && !strings.HasSuffix(pf.key, "-x0") && !strings.HasSuffix(pf.key, "-order2") {
+			pf.pcase = fmt.Sprintf("P roundtrip %s %s %s", a.name, f, safeCanon(a, pt))
+			return pf
+		}
+	}
+	if q != nil && q2 != nil && !a.equal(q, q2) {
+		var e1, e2 []byte
+		if vh.Safely(func() { e1, e2 = a.enc(f, q), a.enc(f, q2) }) == "" && bytes.Equal(e1, e2) &&
+			!(a.kind == 'm' && f == "c" && a.equal(q, a.neg(q2))) {
+			return &propFail{"", fmt.Sprintf("two different elements %s and %s share the encoding %s", qc, q2c, vh.Hex(e1)), fmt.Sprintf("P roundtrip %s %s %s", a.name, f, q2c)}
+		}
+	}
+	if strings.HasPrefix(impl, "OK ") {
+		if p, err := a.dec(f, b); err == nil {
+			if pf := propDenotes(a, f, b, p); pf != nil {
+				return pf
+			}
+		}
+	} else if q != nil {
+		// the implementation refuses a string that is the encoding of the valid point Q
+		var e []byte
+		if vh.Safely(func() { e = a.enc(f, q) }) == "" && bytes.Equal(e, b) {
+			return &propFail{"", fmt.Sprintf("the encoding %s of the valid point %s is rejected", vh.Hex(b), qc), fmt.Sprintf("P roundtrip %s %s %s", a.name, f, qc)}
 		}
 	}
 	return nil
@@ -1343,7 +1428,7 @@ func replay(a vh.Args, res *vh.Result) {
 			impl := implEval(c)
 			if impl != out[0] {
 				m := vh.Mismatch{ID: "replay", Kind: "corr", Key: corrKey(c), Detail: fmt.Sprintf("implementation: %s ; model: %s", impl, out[0]), Case: c}
-				if pf := propOfLine(c, impl); pf != nil {
+				if pf := propOfLine(c, impl, out[0]); pf != nil {
 					m.PropFail = true
 					m.Detail += " ; property: " + pf.detail
 				}
